@@ -42,15 +42,23 @@ RULE = ("decorator trees over recording sinks and StreamFailFast leaves: every t
         "argument None, a frozenset or one of the caller's 1..4 own set objects: the same object as at the previous "
         "call (half of the calls; in two thirds of those the caller has changed it in place in between - one tag "
         "added or discarded, or refilled), another object holding an equal value, or an unrelated one; the keyword "
-        "dict one persistent object refilled per call (40%) or a new one; ids, statuses, "
-        "routes, file chunks, timestamps supplied or not; non-trivial = at least two leaves or depth >= 2, and at "
-        "least one status call; distinct = distinct JSON")
+        "dict one persistent object refilled per call (40%) or a new one; every field drawn from a table that "
+        "holds the awkward values too: timestamps missing (left out or None) / timezone-aware UTC / aware in +02:00 "
+        "or -05:30 / NAIVE / not a datetime ('F', 0, '', 12.5, ()); route codes None / ordinary / '' / '/' / 'ab/' / "
+        "'/1' / ' ' / '0//xyz'; StreamToQueue routing codes now and then '' or ' '; ids, file names, mime types and "
+        "one tag the empty string; statuses, file chunks (empty bytes too); non-trivial = at least two leaves or "
+        "depth >= 2, and at least one status call; distinct = distinct JSON")
 TRUSTED = ["doubles.StreamResult records the arguments it receives by reference; queue.Queue is FIFO",
            "the harness's drain loop for StreamToQueue (status -> status(**dict), startTestRun/stopTestRun handed on)",
            "the driver's identity test (`is`) that decides whether a logged tag object is one of the caller's own sets "
            "(read right after the call) or not (read at the end of the run)"]
 ASSUMPTIONS = ["tags, ids, file names, mime types, supplied timestamps and route segments are mapped to small numbers "
-               "by fixed injective tables; tags are numbers below 6",
+               "by fixed injective tables (the empty string, a blank, naive / other-zone datetimes and non-datetime "
+               "placeholders have numbers of their own); tags are numbers below 6",
+               "a supplied timestamp is compared as kind (aware + UTC offset / naive / not a datetime) + value, so a "
+               "change of tzinfo that keeps the instant, or one that keeps the wall-clock reading, both count as changed; "
+               "a route code is compared as the list of its '/'-separated segments, '' being one empty segment; route "
+               "codes and routing codes are str or None (anything else makes StreamToQueue raise TypeError on HEAD)",
                "the caller passes test_tags as None, a frozenset or a set (the quantifier of the property)",
                "whether a sink is handed the caller's own set object or an equal copy is left open (the statement "
                "speaks of what a target receives): a caller-owned object in a sink's log is compared by its value "
@@ -64,19 +72,46 @@ EXPLANATION = ("Theorems in coq/Props/C11.v over all decorator trees and histori
                "raised, and the contents of the caller's own set objects right after the call are compared with "
                "coq/Model/StreamDecor.v and judged by Spec.C11.spec_okb.")
 
-SEGS = ["0", "1", "ab", "xyz", "q7", "long-seg", "Z"]
+# Value tables.  Every field the decorators merely hand on is drawn from a table that contains the awkward values
+# too: the empty string (falsy, like None), a blank, and for timestamps naive datetimes, aware ones in several
+# zones and things that are no datetimes at all.  The Coq side sees the table index.
+SEGS = ["0", "1", "ab", "xyz", "q7", "long-seg", "Z", "", " "]      # route code segments: "" is segment 7
+SEG_EMPTY, SEG_BLANK = 7, 8
 SEGNUM = {s: k for k, s in enumerate(SEGS)}
-BASE = datetime.datetime(2020, 1, 1, tzinfo=datetime.timezone.utc)
+ID_STR = ["test0", "test1", "test2", "", " "]
+FILE_STR = ["file0", "file1", "file2", ""]
+MIME_STR = ["text/m0", "text/m1", ""]
+TAG_STR = ["tag0", "tag1", "tag2", "tag3", "tag4", ""]                # tag 5 is the empty string
+UTC = datetime.timezone.utc
+ZONES = [UTC, datetime.timezone(datetime.timedelta(hours=2)), datetime.timezone(datetime.timedelta(hours=-5, minutes=-30))]
+NAIVE_BASE = datetime.datetime(2020, 1, 1)
+BASE = NAIVE_BASE.replace(tzinfo=UTC)
+TS_OTHER = ["F", 0, "", 12.5, ()]                                     # placeholders that are not datetimes
 GARBAGE = 4999
 NTAGS = 6
+NDAYS = 50
+
+
+def ts_value(t):
+    """the timestamp object for ["a", zone, day] | ["n", day] | ["o", k] (an int day = aware UTC, older replays)"""
+    if t is None:
+        return None
+    if isinstance(t, int):
+        t = ["a", 0, t]
+    if t[0] == "a":
+        return (NAIVE_BASE + datetime.timedelta(days=t[2])).replace(tzinfo=ZONES[t[1]])
+    if t[0] == "n":
+        return NAIVE_BASE + datetime.timedelta(days=t[1])
+    return TS_OTHER[t[1]]
 
 
 # ---------------- numbers <-> python values ----------------
-def _num(prefix, s):
+def _idx(table, s):
     if s is None:
         return None
-    if isinstance(s, str) and s.startswith(prefix) and s[len(prefix):].isdigit():
-        return min(int(s[len(prefix):]), GARBAGE)
+    for k, v in enumerate(table):
+        if type(v) is type(s) and v == s:
+            return k
     return GARBAGE
 
 
@@ -89,28 +124,37 @@ def route_num(rc):
 
 
 def tagset(ts):
-    return set("tag%d" % t for t in ts)
+    return set(TAG_STR[t] for t in ts)
 
 
 def canon_tags(tags):
     if tags is None:
         return None
     try:
-        return sorted(_num("tag", t) for t in tags)
+        return sorted(_idx(TAG_STR, t) for t in tags)
     except TypeError:
         return [GARBAGE]
 
 
 def canon_ts(ts):
-    """supplied timestamps come from a fixed table; anything else must be a current UTC time: only classified"""
+    """a supplied timestamp is identified in the tables - kind (aware + zone / naive / not a datetime) and value;
+    anything else must be a current UTC time: only classified"""
     if ts is None:
         return None
+    if not isinstance(ts, datetime.datetime):
+        k = _idx(TS_OTHER, ts)
+        return GARBAGE if k == GARBAGE else ["o", k]
     try:
-        d = ts - BASE
-        if d.seconds == 0 and d.microseconds == 0 and 0 <= d.days < 50:
-            return d.days
-        now = datetime.datetime.now(datetime.timezone.utc)
-        if ts.utcoffset() == datetime.timedelta(0) and abs(now - ts) < datetime.timedelta(days=1):
+        d = ts.replace(tzinfo=None) - NAIVE_BASE
+        exact = d.seconds == 0 and d.microseconds == 0 and 0 <= d.days < NDAYS
+        if ts.tzinfo is None:
+            return ["n", d.days] if exact else GARBAGE
+        off = ts.utcoffset()
+        for z, zone in enumerate(ZONES):
+            if exact and zone.utcoffset(None) == off:
+                return ["a", z, d.days]
+        now = datetime.datetime.now(UTC)
+        if off == datetime.timedelta(0) and abs(now - ts) < datetime.timedelta(days=1):
             return "filled"
     except Exception:
         pass
@@ -119,11 +163,11 @@ def canon_ts(ts):
 
 def canon_event(e):
     st = e.test_status
-    return {"id": _num("test", e.test_id),
+    return {"id": _idx(ID_STR, e.test_id),
             "st": None if st is None else (STATUSES.index(st) if st in STATUSES else GARBAGE),
-            "tags": canon_tags(e.test_tags), "run": bool(e.runnable), "file": _num("file", e.file_name),
+            "tags": canon_tags(e.test_tags), "run": bool(e.runnable), "file": _idx(FILE_STR, e.file_name),
             "bytes": None if e.file_bytes is None else list(bytes(e.file_bytes)),
-            "eof": bool(e.eof), "mime": _num("text/m", e.mime_type),
+            "eof": bool(e.eof), "mime": _idx(MIME_STR, e.mime_type),
             "route": route_num(e.route_code), "ts": canon_ts(e.timestamp)}
 
 
@@ -206,16 +250,16 @@ def call_status(root, ev, caller_sets, kwobj=None):
     else:
         tags = caller_sets[tg[1]]           # the caller's own object
     kw = {
-        "test_id": None if ev["id"] is None else "test%d" % ev["id"],
+        "test_id": None if ev["id"] is None else ID_STR[ev["id"]],
         "test_status": None if ev["st"] is None else STATUSES[ev["st"]],
         "test_tags": tags,
         "runnable": ev["run"],
-        "file_name": None if ev["file"] is None else "file%d" % ev["file"],
+        "file_name": None if ev["file"] is None else FILE_STR[ev["file"]],
         "file_bytes": None if ev["bytes"] is None else bytes(ev["bytes"]),
         "eof": ev["eof"],
-        "mime_type": None if ev["mime"] is None else "text/m%d" % ev["mime"],
+        "mime_type": None if ev["mime"] is None else MIME_STR[ev["mime"]],
         "route_code": None if ev["route"] is None else "/".join(SEGS[s] for s in ev["route"]),
-        "timestamp": None if ev["ts"] is None else BASE + datetime.timedelta(days=ev["ts"]),
+        "timestamp": ts_value(ev["ts"]),
     }
     pos = []
     for name in ["test_id", "test_status"][:ev.get("pos", 0)]:
@@ -325,17 +369,31 @@ def t_tree(t):
     return "(ToQueue %s %s)" % (q.nat(t[1]), t_tree(t[2]))
 
 
+def t_ts(t):
+    if t is None:
+        return "TsNone"
+    if t == "filled":
+        return "TsFilled"
+    if isinstance(t, int):                      # GARBAGE from the canoniser, or an aware UTC day of an older replay
+        return "(TsGiven (TOther %s))" % q.nat(t) if t == GARBAGE else "(TsGiven (TAware 0 %s))" % q.nat(t)
+    if t[0] == "a":
+        return "(TsGiven (TAware %s %s))" % (q.nat(t[1]), q.nat(t[2]))
+    if t[0] == "n":
+        return "(TsGiven (TNaive %s))" % q.nat(t[1])
+    return "(TsGiven (TOther %s))" % q.nat(t[1])
+
+
 def t_in_event(e):
     tg = e["tags"]
     tags = "TNone" if tg is None else ("(TFrozen %s)" % t_nats(tg[1]) if tg[0] == "f" else "(TLoc %s)" % q.nat(tg[1]))
-    ts = "TsNone" if e["ts"] is None else "(TsGiven %s)" % q.nat(e["ts"])
+    ts = t_ts(e["ts"])
     return "(Evt %s %s %s %s %s %s %s %s %s %s)" % (
         t_onat(e["id"]), t_onat(e["st"]), tags, q.boolean(e["run"]), t_onat(e["file"]), t_olist(e["bytes"]),
         q.boolean(e["eof"]), t_onat(e["mime"]), t_olist(e["route"]), ts)
 
 
 def t_out_event(e):
-    ts = "TsNone" if e["ts"] is None else ("TsFilled" if e["ts"] == "filled" else "(TsGiven %s)" % q.nat(e["ts"]))
+    ts = t_ts(e["ts"])
     return "(Evt %s %s %s %s %s %s %s %s %s %s)" % (
         t_onat(e["id"]), t_onat(e["st"]), t_olist(e["tags"]), q.boolean(e["run"]), t_onat(e["file"]),
         t_olist(e["bytes"]), q.boolean(e["eof"]), t_onat(e["mime"]), t_olist(e["route"]), ts)
@@ -409,7 +467,7 @@ def fill(t, rng):
         return ["G", list(a), list(d), [fill(c, rng) for c in t[3]]]
     if k == "Z":
         return ["Z", fill(t[1], rng)]
-    return ["Q", rng.choice([0, 2, 5, 1]), fill(t[2], rng)]
+    return ["Q", rand_code(rng), fill(t[2], rng)]
 
 
 def n_leaves(t):
@@ -445,7 +503,7 @@ def rand_tree(rng, d, fan=3):
         return ["G", list(a), list(dd), [rand_tree(rng, d - 1, fan) for _ in range(rng.choice([1, 2, 2, 3]))]]
     if x < 0.82:
         return ["Z", rand_tree(rng, d - 1, fan)]
-    return ["Q", rng.choice([0, 2, 5, 1]), rand_tree(rng, d - 1, fan)]
+    return ["Q", rand_code(rng), rand_tree(rng, d - 1, fan)]
 
 
 def rand_event(rng, ncaller):
@@ -456,16 +514,51 @@ def rand_event(rng, ncaller):
         tags = ["f", sorted(rng.sample(range(NTAGS), rng.choice([0, 1, 2, 3])))]
     else:
         tags = ["l", rng.randrange(ncaller)]
-    e = {"id": rng.choice([0, 1, None, 2]), "st": rng.choice([None, 0, 1, 2, 3, 4, 5, 5, 3, 6, 7]),
+    e = {"id": rng.choice([0, 1, None, 2, 0, 1, 3, 4]), "st": rng.choice([None, 0, 1, 2, 3, 4, 5, 5, 3, 6, 7]),
          "tags": tags, "run": rng.random() < 0.8, "file": None, "bytes": None, "eof": False, "mime": None,
-         "route": rng.choice([None, None, [1], [0, 3], [2, 2, 1]]), "ts": rng.choice([None, None, 0, 7]),
+         "route": rand_route(rng), "ts": rand_ts(rng),
          "pos": rng.choice([0, 0, 1, 2]), "omit": rng.random() < 0.4}
     if rng.random() < 0.3:
-        e["file"] = rng.randint(0, 2)
+        e["file"] = rng.randint(0, 3)
         e["bytes"] = [rng.randint(0, 255) for _ in range(rng.randint(0, 3))]
         e["eof"] = rng.random() < 0.5
-        e["mime"] = rng.choice([None, 0, 1])
+        e["mime"] = rng.choice([None, 0, 1, 2])
     return e
+
+
+ROUTES = [[1], [0, 3], [2, 2, 1],                                     # '1', '0/xyz', 'ab/ab/1'
+          [SEG_EMPTY], [SEG_EMPTY, SEG_EMPTY], [2, SEG_EMPTY], [SEG_EMPTY, 1], [SEG_BLANK],   # '', '/', 'ab/', '/1', ' '
+          [0, SEG_EMPTY, 3]]                                          # '0//xyz'
+
+
+def rand_route(rng):
+    """None, ordinary codes, and the awkward strings: '', '/', 'ab/', '/1', ' ', '0//xyz'"""
+    x = rng.random()
+    if x < 0.35:
+        return None
+    if x < 0.65:
+        return list(rng.choice(ROUTES[:3]))
+    return list(rng.choice(ROUTES[3:]))
+
+
+def rand_ts(rng):
+    """missing; timezone-aware (UTC or another zone); naive; not a datetime at all (falsy ones included)"""
+    x = rng.random()
+    if x < 0.35:
+        return None
+    day = rng.choice([0, 7, 7, 31])
+    if x < 0.55:
+        return ["a", 0, day]
+    if x < 0.68:
+        return ["a", rng.choice([1, 2]), day]
+    if x < 0.85:
+        return ["n", day]
+    return ["o", rng.randrange(len(TS_OTHER))]
+
+
+def rand_code(rng):
+    """routing code of a StreamToQueue; now and then the empty string or a blank"""
+    return rng.choice([0, 2, 5, 1]) if rng.random() < 0.9 else rng.choice([SEG_EMPTY, SEG_BLANK])
 
 
 def rand_skeleton(rng):
@@ -578,6 +671,20 @@ def fixed_cases():
         {"tree": ["C", []], "caller": [[1]], "ops": [["S"], ["E", ev(["l", 0])], ["T"]]},
         {"tree": ["G", [1], [], []], "caller": [[1]], "ops": [["E", ev(["l", 0])]]},
         {"tree": ["K"], "caller": [[1]], "ops": [["E", ev(["l", 0])]]},
+        # supplied timestamps of every kind are handed on untouched: naive, aware in any zone, not a datetime
+        # (falsy ones too), straight and through a queue (always an explicit timestamp= in the replayed dict)
+        {"tree": ["C", [["Z", ["K"]], ["K"], ["Q", 0, ["Z", ["Z", ["K"]]]]]], "caller": [],
+         "ops": [["E", ev(ts=t)] for t in (["n", 7], ["a", 0, 7], ["a", 1, 7], ["a", 2, 0], ["n", 0], None)]
+                + [["E", ev(ts=["o", k])] for k in range(len(TS_OTHER))]},
+        # route codes that are falsy or end in / : '', '/', 'ab/', '/1', ' ', through one and two queues, and a
+        # queue whose own routing code is the empty string
+        {"tree": ["C", [["Q", 0, ["K"]], ["Q", 2, ["Q", 5, ["K"]]], ["G", [1], [], [["Q", 1, ["K"]]]], ["K"],
+                        ["Q", SEG_EMPTY, ["K"]]]], "caller": [],
+         "ops": [["E", ev(route=r)] for r in [None] + ROUTES]},
+        # empty strings for id, file name, mime type, a tag; empty bytes
+        {"tree": ["G", [5], [], [["K"], ["Q", 0, ["Z", ["K"]]], ["G", [], [5], [["K"]]]]], "caller": [[5], [1, 5]],
+         "ops": [["E", ev(["l", 0], id=3, file=3, bytes=[], mime=2)], ["E", ev(["l", 1], id=4)],
+                 ["E", ev(["f", [5]], id=3, pos=1)], ["E", ev(None, id=3, omit=True)]]},
         # several runs through the same decorators, stopTestRun repeated, status calls outside a run
         {"tree": ["C", [["K"], ["G", [1], [], [["Z", ["Q", 0, ["K"]]], ["K"]]], ["Q", 2, ["K"]]]], "caller": [],
          "ops": [["S"], ["E", ev()], ["T"], ["S"], ["E", ev(st=5)], ["T"], ["S"], ["T"]]},
@@ -696,7 +803,10 @@ def distribution(cases):
          "caller_mutations": 0, "with_nested_taggers": 0, "with_failfast": 0, "with_queue": 0, "with_stamp": 0,
          "timestamp_supplied": 0, "timestamp_missing": 0, "stop_calls_per_history": {}, "start_calls_per_history": {},
          "status_outside_run": 0, "same_set_object_again": 0, "same_set_object_again_changed_between": 0,
-         "equal_value_other_object": 0, "kwargs_dict_reused": 0}
+         "equal_value_other_object": 0, "kwargs_dict_reused": 0,
+         "timestamp_kind": {"missing": 0, "aware_utc": 0, "aware_other_zone": 0, "naive": 0, "not_a_datetime": 0},
+         "route_kind": {"none": 0, "ordinary": 0, "empty_string": 0, "other_with_empty_segment": 0, "blank": 0},
+         "empty_string_id_file_or_mime": 0, "queue_with_empty_or_blank_code": 0}
     import json
     for c in cases:
         t = c["tree"]
@@ -707,6 +817,7 @@ def distribution(cases):
         d["with_nested_taggers"] += s.count('"G"') >= 2
         d["with_failfast"] += '"F"' in s
         d["with_queue"] += '"Q"' in s
+        d["queue_with_empty_or_blank_code"] += ('["Q", %d,' % SEG_EMPTY in s) or ('["Q", %d,' % SEG_BLANK in s)
         d["with_stamp"] += '"Z"' in s
         ns = sum(op[0] == "S" for op in c["ops"])
         nt = sum(op[0] == "T" for op in c["ops"])
@@ -740,6 +851,15 @@ def distribution(cases):
                 tg = op[1]["tags"]
                 d["tag_arg"]["none" if tg is None else "frozenset" if tg[0] == "f" else "set"] += 1
                 d["timestamp_supplied" if op[1]["ts"] is not None else "timestamp_missing"] += 1
+                t = op[1]["ts"]
+                t = ["a", 0, t] if isinstance(t, int) else t
+                d["timestamp_kind"]["missing" if t is None else "naive" if t[0] == "n" else "not_a_datetime"
+                                    if t[0] == "o" else "aware_utc" if t[1] == 0 else "aware_other_zone"] += 1
+                r = op[1]["route"]
+                d["route_kind"]["none" if r is None else "empty_string" if r == [SEG_EMPTY] else
+                                "other_with_empty_segment" if SEG_EMPTY in r else "blank" if SEG_BLANK in r
+                                else "ordinary"] += 1
+                d["empty_string_id_file_or_mime"] += (op[1]["id"] == 3 or op[1]["file"] == 3 or op[1]["mime"] == 2)
             elif op[0] == "M":
                 d["caller_mutations"] += 1
     return d
